@@ -246,7 +246,7 @@ def w_cases(items):
 
 
 LEX_RULES = [("int", "anyIntRule"), ("float", "anyFloatRule"), ("ew", "boundingCoordinateRule_EW"), ("ns", "boundingCoordinateRule_NS"),
-             ("nonneg", "anyNonNegativeFloatRule")]
+             ("nonneg", "anyNonNegativeFloatRule"), ("yd", "calendarDateRule"), ("time", "timeRule")]
 
 
 def w_lexical(idx):
@@ -260,6 +260,8 @@ def w_lexical(idx):
         L = G["L"][i]
         text = "".join(L["s"])
         for k, r in robj.items():
+            if k not in L:
+                continue
             verdict = L[k]
             node = Node("zzLexical", content=text)
             ff = None
@@ -275,7 +277,7 @@ def w_lexical(idx):
                 craised = e
             n += 1
             cerr = [e for e in errs if e[0].name.startswith("CONTENT")]
-            ffc = ff if (ff is None or not isinstance(ff, MetapypeRuleError) or "content" in str(ff) or "range" in str(ff) or "non-negative" in str(ff)) else None
+            ffc = ff if (ff is None or not isinstance(ff, MetapypeRuleError) or "content" in str(ff) or "range" in str(ff) or "non-negative" in str(ff) or "format should be" in str(ff)) else None
             bad = []
             if craised is not None:
                 bad.append(("collecting-mode-raised", craised))
@@ -335,6 +337,18 @@ def run(rep, tier, seed):
     rep.add_tlc(rl, "Lexical.cfg (strict / generous grammars of int and float on all short strings)")
     G["L"] = load_log_all(outl)["L"]
     os.remove(outl)
+    # the same for year-or-date and time over {+,-,0,1,2,9,:,T}
+    cfgd = os.path.join(wd, "LexDate.cfg")
+    open(cfgd, "w").write(f"SPECIFICATION Spec\nCONSTANT MaxLen = {5 if tier == 'quick' else 6}\nINVARIANT StrictWithinGenerous\nINVARIANT Log\n")
+    rd = run_tlc("LexDate", cfg=cfgd, stdout_path=outl, timeout=1800)
+    if rd.invariant_violated or not rd.ok:
+        raise MachineryError("SPEC ERROR: LexDate.tla:\n" + rd.out[-1500:])
+    rep.add_tlc(rd, "LexDate.cfg (strict / generous grammars of year-or-date and time on all short strings)")
+    LD = load_log_all(outl)["L"]
+    os.remove(outl)
+    rep.notes["lexdate_strings"] = len(LD)
+    rep.notes["lexdate_verdicts"] = {k: {v: sum(1 for x in LD if x[k] == v) for v in ("ACCEPT", "REJECT", "UNSPEC")} for k in ("yd", "time")}
+    G["L"] = G["L"] + LD
     nl = 0
     for m, outl_ in parallel(w_lexical, range(len(G["L"]))):
         nl += m
